@@ -103,6 +103,34 @@ def json_oracle(net, type_name, tree, rendered):
 		return False
 
 
+def fixed_prefix_reserved_offsets(net, model):
+	"""(offset, width, name) of every reserved member that lies in the fixed-size prefix of a struct's encoding (members before the
+	first variable-size or conditional one), from the schema alone."""
+	found = []
+	offset = 0
+	for field in codec.non_const(model):
+		if field.is_conditional:
+			break
+		field_type = field.field_type
+		kind = codec.kind(field_type)
+		if kind == 'FixedSizeInteger':
+			width = field_type.size
+		elif kind == 'Array':
+			if codec.is_byte_array(field) and isinstance(field_type.size, int) and not field_type.is_expandable:
+				width = field_type.size
+			else:
+				break
+		else:
+			target = net.by_name.get(field_type)
+			if target is None or codec.kind(target) == 'Struct':
+				break
+			width = target.size
+		if field.disposition == 'reserved' and kind == 'FixedSizeInteger':
+			found.append((offset, width, field.name))
+		offset += width
+	return found
+
+
 def without_present_empty(net, tree):
 	"""The value with every present-and-empty conditional array member (at any depth) taken for absent."""
 	if isinstance(tree, list):
@@ -164,6 +192,22 @@ def run_network(check, net, per_class):
 				expected.append(des_text)
 				meta.append(('des', name, data.hex(), data.hex()))
 				check.case(f'{net.name}:decode', (name, data.hex()))
+				# reserved members are AT their constants: the same bytes with one reserved member changed are not an encoding of the type
+				if index == 0 and codec.kind(model) == 'Struct':
+					for offset, width, reserved_name in fixed_prefix_reserved_offsets(net, model):
+						if offset + width > len(data):
+							continue
+						for position in sorted({offset, offset + width - 1}):
+							corrupted = data[:position] + bytes([data[position] ^ 0x01]) + data[position + 1:]
+							bad_text, bad_decoded = impl_des(net, name, corrupted)
+							exprs.append(f'case_des {net.coq_schema} "{name}" {blit(corrupted)}')
+							expected.append(bad_text)
+							meta.append(('des', name, corrupted.hex(), corrupted.hex()))
+							check.case(f'{net.name}:decode:reserved-member-changed', (name, corrupted.hex()))
+							if bad_decoded is not None:
+								check.fail(signature('reserved-member-not-checked', name, reserved_name),
+									f'{net.name}.{name}: bytes whose reserved member {reserved_name} (offset {offset}) is not its constant decode',
+									{'network': net.name, 'class': name, 'bytes': corrupted.hex(), 'member': reserved_name, 'offset': offset})
 				if decoded is not None:
 					decoded_text = impl_text(net, decoded[0])
 					if decoded_text != text:
